@@ -5,6 +5,7 @@ import (
 	"fmt"
 	"net"
 	"sync"
+	"unsafe"
 
 	"github.com/pion/stun/v3"
 	"github.com/pion/stun/v3/verifharness/core"
@@ -241,6 +242,7 @@ func c07Run(g c07Getter, wire []byte, extra, fill int, key []byte, r *gen.Rand, 
 		return c07Outcome{}, "twin not decodable: " + err.Error()
 	}
 	before := viewOf(m)
+	capBefore, ptrBefore := cap(m.Raw), unsafe.SliceData(m.Raw)
 	var o c07Outcome
 	var err error
 	p, stack := safely(func() { o.out, err = g.run(m, key, dirty) })
@@ -255,6 +257,9 @@ func c07Run(g c07Getter, wire []byte, extra, fill int, key []byte, r *gen.Rand, 
 		o.out = ""
 	}
 	o.mutated = before.diff(viewOf(m))
+	if o.mutated == "" && (cap(m.Raw) != capBefore || unsafe.SliceData(m.Raw) != ptrBefore) {
+		o.mutated = fmt.Sprintf("the message's buffer was replaced or clipped: capacity %d before, %d after the call", capBefore, cap(m.Raw))
+	}
 
 	return o, ""
 }
